@@ -282,3 +282,6 @@ func VerifC18Update() {
 	}
 	verifapi.Assert(len(node.trusted) == 0, "c18.update-round-trusts-nobody")
 }
+
+// VerifFakeNode exposes the recording node to harnesses of other packages.
+func VerifFakeNode() ethnode.EthNode { return &verifNode{ua: ethnode.UserAgent{Kind: ethnode.Geth}} }
